@@ -8,7 +8,7 @@ PROPERTY = dict(
     explanation='Solver verdicts for the version gate (all stored schema/client versions, recreate on and off) and the lock gate; the round trip is not decided, so database transparency as a whole is not established by this check.',
     assumptions=['distinct engine keys have distinct byte strings and distinct non-zero engine ids'],
 )
-COMMON = dict(harness='C03/h_db.cpp', entry='harness_db', shim_includes=['C03/shim'], cxxflags=['-I/repo/lib/Core'],   # shim: contract model of llvm::DenseMap (see the header)
+COMMON = dict(opt_flags=['-disable-loop-idiom-all'], harness='C03/h_db.cpp', entry='harness_db', shim_includes=['C03/shim'], cxxflags=['-I/repo/lib/Core'],   # shim: contract model of llvm::DenseMap (see the header)
               tus=['lib/llvm/Support/StringRef.cpp'],
               models=['engine'], stub_virtual=['SQLiteBuildDB4dump', '^_ZN7llbuild4core4Rule', 'SQLiteBuildDB(7getKeys|17getKeysWithResult)'], allow_external=['^_ZTVN7llbuild4core4RuleE$', '^_ZTVN7llbuild4core7BuildDBE$', '^_ZTVN7llbuild4core15BuildDBDelegateE$'],
               stubs=['SQLiteBuildDB22getCurrentErrorMessageB5cxx11Ev$=stub_errmsg', '_ZNK4llvm5Twine3strB5cxx11Ev$=stub_twine_str', '^_ZNSt7__cxx119to_stringEi$=stub_to_string_i', '^_ZNSt7__cxx119to_stringEj$=stub_to_string_u', '^_ZN7llbuild5basic3sys6unlinkEPKc$=vf_unlink'],
